@@ -29,25 +29,26 @@ def run(tier, seed, replay=None):
     chk = Check("C20", tier, seed)
     bdir = vlib.build("m1d0", ["grid_driver"])
     work = vlib.scratch("c20")
-    cfg = "Grid_quick.cfg" if tier == "quick" else "Grid_thorough.cfg"
+    cfgs = ["Grid_quick.cfg"] if tier == "quick" else ["Grid_thorough.cfg", "Grid_pairs.cfg"]
 
     # 1. the design satisfies the property: exhaustive TLC run, states dumped
-    dump = os.path.join(work, "states")
-    res = vlib.tlc(SPEC, "GridMC", cfg, dump=dump, timeout=3000)
-    if res.is_violation:
-        chk.add_tlc("Grid/" + cfg, res)
-        chk.violation("design:" + ",".join(res.violated), "TLC: the grid design of spec/Grid violates " + ",".join(res.violated) + "\n" + res.out[-1500:])
-        return chk.finish()
-    vlib.tlc_expect_ok(res, "Grid")
-    chk.add_tlc("Grid/" + cfg, res)
-
-    # 2. replay every explored state into the implementation
     cases = []
-    for st in vlib.parse_dump(dump + ".dump"):
-        for unit, off, name in phys_variants(tuple(st["reg"])):
-            cases.append({"k": len(cases) + 1, "lo": list(st["lo"]), "hi": list(st["hi"]), "s": st["s"],
-                          "reg": list(st["reg"]), "objs": [list(p) for p in st["objs"]],
-                          "unit": unit, "off": off, "phys": name})
+    for cfg in cfgs:
+        dump = os.path.join(work, "states_" + cfg)
+        res = vlib.tlc(SPEC, "GridMC", cfg, dump=dump, timeout=3000)
+        if res.is_violation:
+            chk.add_tlc("Grid/" + cfg, res)
+            chk.violation("design:" + ",".join(res.violated), "TLC: the grid design of spec/Grid violates " + ",".join(res.violated) + "\n" + res.out[-1500:])
+            return chk.finish()
+        vlib.tlc_expect_ok(res, "Grid")
+        chk.add_tlc("Grid/" + cfg, res)
+
+        # 2. replay every explored state into the implementation
+        for st in vlib.parse_dump(dump + ".dump"):
+            for unit, off, name in phys_variants(tuple(st["reg"])):
+                cases.append({"k": len(cases) + 1, "lo": list(st["lo"]), "hi": list(st["hi"]), "s": st["s"],
+                              "reg": list(st["reg"]), "objs": [list(p) for p in st["objs"]],
+                              "unit": unit, "off": off, "phys": name})
     if replay:
         with open(replay) as f:
             cases = [json.load(f)["case"]["case"]]
